@@ -41,8 +41,9 @@ def SPEC(tier):
 
 META = dict(
     technique='differential testing between separately compiled GLM configurations (pure vs SSE2..AVX2+FMA) loaded side by side with dlopen, over a generated operation table',
-    text='About 2600 operation instances (operators, common/exponential/trigonometric/geometric/matrix/quaternion/packing functions for vec1-4, mat2-4, quat; float, double, int, uint; '
-         'highp/mediump/lowp) are executed with the same generated inputs in a GLM_FORCE_PURE build and in GLM_FORCE_INTRINSICS builds (4 levels quick, 8 levels x 2 compilers thorough). '
+    text='About 4200 operation instances (operators, constructors and conversions, common/exponential/trigonometric/geometric/matrix/quaternion/packing/ULP/colour functions for vec1-4, mat2-4, quat; float, double, int, uint and the builtin integer widths; '
+         'highp/mediump/lowp) are executed with the same generated inputs in a GLM_FORCE_PURE build and in GLM_FORCE_INTRINSICS builds (SSE2, SSE4.1, AVX, AVX2, AVX2+FMA, AVX2 with QUAT_DATA_WXYZ in quick; 8 levels x 2 compilers thorough). Branch agreement (refract, faceforward at +-0), invisible-lane, '
+         'exponent-extreme and two-call-history operations are part of the table; the MXCSR control bits are compared around every call; a 15 s coverage-guided stage drives the same table. '
          'A sampling search: it shows absence of a counterexample among the generated cases only.',
     note='Trusts the comparison classes in optable/ops_*.cpp (k-ulp bounds of the largest intermediate term). The driver refuses to run if a "SIMD" library silently compiled without GLM_CONFIG_SIMD.',
     design='6/C03')
